@@ -109,7 +109,12 @@ CmpOk(e) ==
                      IF c > 0 THEN o = S!Ret(x.c, x.f) ELSE IF c < 0 THEN o = S!Ret(y.c, y.f)
                      ELSE o \in {S!Ret(x.c, x.f), S!Ret(y.c, y.f)}
 \* feature rkyv: archived values compare like the values they were archived from, and keep (coefficient, scale)
-AcmpOk(e) == CmpOk(e) /\ Num(e.ac) = Num(e.x) /\ e.af = e.x.f
+ArchTag == <<65, 114, 99, 104, 105, 118, 101, 100, 68, 101, 99, 105, 109, 97, 108, 40>>      \* "ArchivedDecimal("
+AcmpOk(e) ==
+  LET x == DecOf(e.x) IN
+  /\ CmpOk(e) /\ Num(e.ac) = x.c /\ e.af = x.f
+  /\ e.apred = <<B2I(x.c.s = 0), B2I(S!IsOneD(x)), B2I(x.c.s < 0), B2I(x.c.s > 0)>>
+  /\ e.adbg = ArchTag \o T!Canon(x.c, x.f) \o <<41>>
 KernOk(e) == S!KernelOk(Num(e.x), Num(e.y), e.mode, OutOf(e.out, "panic"))
 WideOk(e, md) ==
   LET op == e.op  some == e.some = 1  q == IF some THEN Num(e.q) ELSE Z0  r == IF some /\ op \in {"i256_div_mod_floor", "i128_shifted_div_mod_floor"} THEN Num(e.r) ELSE Z0
